@@ -519,7 +519,9 @@ def run(tier):
     order = [MU.callee_names(t)[1] for _, t, _, tg in P.call_sites(fn) if any(x.startswith("builder::pass") for x in tg)]
     ok = order == ["builder::pass0::build_pass_0", "builder::pass1::build_pass_1", "builder::pass2::build_pass_2"]
     rep.ob("C10.sequence|passes", ok, "labels are all bound (pass 1) before any operand is evaluated (pass 2)" if ok else "pass order is %s" % order)
-    equ = any(MU.callee_names(t)[1].endswith("::set_equ") for _, t, _, _ in P.call_sites("directive::Directive::parse"))
+    # (in Directive::parse or a private part of the directive module it calls: still while the text is parsed)
+    equ = any(MU.callee_names(t)[1].endswith("::set_equ") for k_ in P.reachable(["directive::Directive::parse"])
+              if k_.startswith("directive::") for _, t, _, _ in P.call_sites(k_))
     rep.ob("C10.sequence|equ", equ, ".equ is bound while parsing, so it can be referenced before its definition line is reached by the passes" if equ else ".equ is not bound in Directive::parse")
     import rules_C02
     rules_C02.byte_operand_dropped(P, rep, "C10.unbound|byte-operand", "a name in the operand is never looked up: `.byte N` with an undefined N, or with N = 4, both count as nothing - the symbol silently stands for zero")
